@@ -193,6 +193,30 @@ Definition jws_step (tbl : list (string * list string)) (ch : chooser) (use_rand
   do kg <- guess_key tbl ch kf g use_random;
   if String.eqb (k_kty (fst kg)) kty then Ok kg else Err (EJose InvalidKeyTypeError).
 
+(* rfc7797.serialize_json with b64 = false: check_header, guess_key, sign —
+   there is NO alg.check_key_type on this path (the compact path and every
+   consuming path have it) *)
+Definition jws7797_json_step (tbl : list (string * list string)) (ch : chooser)
+           (kf : kflex) (g : guest) : res (key * guest) :=
+  do _ <- jws_precheck (headers g);
+  guess_key tbl ch kf g true.
+
+(* What a consumer parses from the emitted JWS.
+   compact (jws.serialize_compact, jwt.encode, rfc7797.serialize_compact with
+   b64 true / false / absent): the header segment is the encoding of the
+   protected header object that received set_kid — on the rfc7797 b64=false
+   path the code encodes the caller's dict, which is the very object stored in
+   CompactSignature.protected and written in place by set_kid;
+   JSON (__sign_member, rfc7797.serialize_json): "protected" / "header" are
+   emitted only when non-empty. *)
+Definition nonempty (o : option hdr) : option hdr :=
+  match tr o with [] => None | d => Some d end.
+Definition jws_emit (g : guest) : guest :=
+  match g_kind g with
+  | GJwsCompact | GJweCompact => mkGuest (g_kind g) (Some (tr (g_prot g))) None None
+  | GJwsMember | GJweJson => mkGuest (g_kind g) (nonempty (g_prot g)) (g_unprot g) (nonempty (g_hdr g))
+  end.
+
 (* JWERegistry.check_header as far as kid is concerned (runs after selection) *)
 Definition jwe_postcheck (h : hdr) : res unit :=
   match dget h s_kid with
